@@ -4,7 +4,7 @@
          duration", alerts/template "template syntax error");
     (ii) Model.PromLoader.prom_accepts                              vs  rulefmt.Parse(content, false) == no error.
     Oracle bits of a scalar (n_ann): 0 metric 1 lname 2 lvalue 3 dur 4 expr 5 str-decodes 6 int-decodes
-    7 pint template ok 8 prometheus template ok 9 duration is zero 10 the scalar node resolves to null (per node).
+    7 pint template ok 8 prometheus template ok 9 duration is zero 11 the scalar node resolves to null (per node; bit 10 and bits 16+ belong to Run/C19 plines_run).
     (iii) glue: the masking reader is the identity on the case's bytes (c_reader_id), cf. Proofs/C01_mask.v. *)
 From Coq Require Import List String Ascii Arith Bool NArith.
 From PintV Require Import Common.Bytes Model.Yaml Model.YamlPosLines Model.Parser Model.Routing Model.PromLoader Run.C19.
@@ -31,7 +31,7 @@ Definition model_prom (c : C19.case) : bool :=
   match c_yerr c, c_docs c with
   | Some _, [] => false                  (* the first document does not parse *)
   | _, ds =>
-      prom_accepts (node_bit 5) (node_bit 6) (node_bit 10)
+      prom_accepts (node_bit 5) (node_bit 6) (node_bit 11)
                    (ann_bit tbl 4) (ann_bit tbl 3) (ann_bit tbl 9) (ann_bit tbl 0) (ann_bit tbl 1) (ann_bit tbl 2) (ann_bit tbl 8)
                    (map fst ds)
   end.
